@@ -272,15 +272,17 @@ func c19ctor(c *core.Ctx) {
 		return
 	}
 	appendOK, indexWrite := false, false
-	ast.Inspect(d.Decl.Body, func(n ast.Node) bool {
+	// in the constructor or in the helper of the set it fills the object with
+	inspectDeep(c, d, 1, func(_ *core.DeclSite, n ast.Node) bool {
 		as, ok := n.(*ast.AssignStmt)
 		if !ok || len(as.Lhs) != 1 || len(as.Rhs) != 1 {
 			return true
 		}
-		if core.ExprStr(as.Lhs[0]) == "order" && strings.HasPrefix(core.ExprStr(as.Rhs[0]), "append(order,") {
+		l, r := core.ExprStr(as.Lhs[0]), core.ExprStr(as.Rhs[0])
+		if (l == "order" || strings.HasSuffix(l, ".order")) && strings.HasPrefix(r, "append("+l+",") {
 			appendOK = true
 		}
-		if ix, ok := as.Lhs[0].(*ast.IndexExpr); ok && core.ExprStr(ix.X) == "order" {
+		if ix, ok := as.Lhs[0].(*ast.IndexExpr); ok && (core.ExprStr(ix.X) == "order" || strings.HasSuffix(core.ExprStr(ix.X), ".order")) {
 			indexWrite = true
 		}
 		return true
